@@ -794,13 +794,13 @@ def direct_reference(ctx, kind, spec, req, L, st, clock, samples, witness):
                       msg=f"|dr| = {dr:.6g} m between the yielded state and a direct propagation to {s.date} ({cls})")
         elif kind == "ephem-linear" and a.tobytes() != b.tobytes():
             # Ephem.iter(step=None) yields copies of its own nodes; interpolate() at a node evaluates
-            # y0 + (y1 - y0) * 1.0, which rounds twice: |d| <= 2^-53 (|y1 - y0| + |y1|) per component.
-            # Bound used: 4 * 2^-52 * |vector| (margin ~3 on the worst case); recorded, judged.
+            # y0 + ((y1 - y0) * dx) / dx, which rounds four times: |d| <= 4 * 2^-53 (|y0| + |y1|) per component,
+            # <= sqrt(3) * 8 * 2^-53 |vector| in norm; tolerance 64 * 2^-53 (margin 4.6 on that worst case).
             ctx.count("state-compared:ephem-linear")
             ctx.count("ephem-linear:node-copy-vs-interpolation-rounding")
             d = max(float(np.linalg.norm(a[:3] - b[:3])) / max(float(np.linalg.norm(b[:3])), 1e-300),
                     float(np.linalg.norm(a[3:] - b[3:])) / max(float(np.linalg.norm(b[3:])), 1e-300))
-            ctx.resid("state:ephem-linear:rel", d, 4 * 2.0 ** -52, key="C08/ephem-linear-iter-state-differs-from-propagate",
+            ctx.resid("state:ephem-linear:rel", d, 64 * 2.0 ** -53, key="C08/ephem-linear-iter-state-differs-from-propagate",
                       witness=dict(w, got=a, ref=b), msg=f"relative difference {d:.3g} between the yielded state and interpolate({s.date})")
         else:
             # same function of the same (initial numbers, date): bit for bit
